@@ -4,10 +4,15 @@ mod common;
 mod rfcref;
 mod tables;
 
+mod c04;
+mod c05;
+mod c06;
 mod c10;
+mod codec;
 mod c13;
 mod c14;
 mod c15;
+mod c18;
 mod c19;
 
 use common::*;
@@ -73,10 +78,14 @@ fn main() {
     }
 
     let (run, rep): (fn(&Ctx) -> i32, ReplayFn) = match id.as_str() {
+        "C04" => (c04::run, c04::replay),
+        "C05" => (c05::run, c05::replay),
+        "C06" => (c06::run, c06::replay),
         "C10" => (c10::run, c10::replay),
         "C13" => (c13::run, c13::replay),
         "C14" => (c14::run, c14::replay),
         "C15" => (c15::run, c15::replay),
+        "C18" => (c18::run, c18::replay),
         "C19" => (c19::run, c19::replay),
         _ => usage(),
     };
